@@ -176,6 +176,10 @@ def norm(spec):
         return [t, spec[1], list(spec[2]), list(spec[3])]  # memory order is not content
     if t == "file":
         return [t, spec[2]]  # content only (the file name/location is not content)
+    if t == "path":
+        from pathlib import PurePosixPath
+
+        return [t, str(PurePosixPath(spec[1]))]  # PurePosixPath("/.") == PurePosixPath("/")
     return list(spec)
 
 
